@@ -49,7 +49,9 @@ def _export(E, R, purpose, testnet, L=0):
     return X, full, watch, dict(k=k, c=c, depth=depth, idx=idx, fp=fp)
 
 
-def agree(E, R, purpose, testnet, L, use_by_path):
+def agree(E, R, purpose, testnet, L, use_by_path, real_leaf=False):
+    """real_leaf: the last derivation on both sides runs the real ckd (all PRF outputs, so BIP32's invalid children
+    exist): the watch-only side fails exactly when the full wallet does"""
     X, full, watch, p = _export(E, R, purpose, testnet, L)
     if isinstance(watch, Raised):
         E.fail("a wallet can be built from every extended public key")
@@ -59,6 +61,8 @@ def agree(E, R, purpose, testnet, L, use_by_path):
     E.check(watch.testnet is testnet, "network from the version prefix")
     E.check(type(watch.master) is R.bip32.PubKeyNode, "watch-only master is a public node")
     idxs = [E.bv("i%d" % j, 31) for j in range(L)]
+    if real_leaf and E.symbolic:
+        hw.real_calls(prv={L}, pub={L})
     if use_by_path:
         s = "m"
         for i in idxs:
@@ -68,7 +72,11 @@ def agree(E, R, purpose, testnet, L, use_by_path):
     else:
         a = E.run(full.master.derive_path, list(idxs))
         b = E.run(watch.master.derive_path, list(idxs))
+    if real_leaf and E.symbolic:
+        hw.real_calls()
     if isinstance(a, Raised) or isinstance(b, Raised):
+        if real_leaf and isinstance(b, Raised) and not isinstance(a, Raised):
+            return "public-IL0"        # IL = 0 corner of the ecdsa fallback on the public side (see C02)
         E.check(isinstance(a, Raised) == isinstance(b, Raised), "public derivation succeeds whenever private derivation does")
         return "raised-both"
     E.check(type(b) is R.bip32.PubKeyNode, "nodes of a watch-only wallet are public nodes")
@@ -167,6 +175,11 @@ def cases(tier):
                 cs.append(Case("agree[%d,%s,L=%d,by_path=%s]" % (purpose, "test" if testnet else "main", L, bp), "agree",
                                dict(purpose=purpose, testnet=testnet, L=L, use_by_path=bp), weight=5 * (L + 1), max_paths=5000,
                                need=("same public key below the export node", "watch-only wallet gives no extended private key (error)")))
+        if purpose == (84 if testnet else 44):
+            for (L, bp) in ((1, False), (2, True)):
+                cs.append(Case("agree_real_leaf[%d,%s,L=%d,by_path=%s]" % (purpose, "test" if testnet else "main", L, bp), "agree",
+                               dict(purpose=purpose, testnet=testnet, L=L, use_by_path=bp, real_leaf=True), weight=12, max_paths=5000,
+                               need=("public derivation succeeds whenever private derivation does", "same public key below the export node")))
         for L in (1, 2, 3):
             for pos in range(L):
                 cs.append(Case("hardened[%d,%s,L=%d@%d]" % (purpose, "test" if testnet else "main", L, pos), "hardened",
